@@ -37,7 +37,8 @@ def main():
         d = os.path.join(src, n)
         if not os.path.isfile(os.path.join(d, "patch.diff")):
             continue
-        tag = "%s_%s" % (prop, n)
+        rnd = os.environ.get("SEED_ROUND")
+        tag = "%s_%s_%s" % (prop, rnd, n) if rnd else "%s_%s" % (prop, n)
         wt = "/tmp/sv_%s" % tag
         sh("git -C /repo worktree remove --force %s" % wt)
         rc, out = sh("git -C /repo worktree add --detach %s" % wt)
